@@ -62,7 +62,7 @@ struct Shared {
 
 /// A user service whose readiness can be switched off from outside: `poll_ready` is Pending while `Shared::blocked` is set.
 #[derive(Clone)]
-struct Gated<S>(S, Arc<Shared>, usize);
+struct Gated<S>(S, Arc<Shared>, usize, Arc<std::sync::atomic::AtomicBool>);
 impl<S, Req> actix_service::Service<Req> for Gated<S>
 where
     S: actix_service::Service<Req>,
@@ -85,6 +85,12 @@ where
             }
             ws.push(cx.waker().clone());
         }
+        // the first readiness check of an instance, and the first one after each call, answers Pending and wakes the waker it was
+        // given from inside the check (the usual way of yielding): the service is ready at the next check
+        if !self.3.swap(true, Ordering::SeqCst) {
+            cx.waker().wake_by_ref();
+            return std::task::Poll::Pending;
+        }
         if self.1.blocked.load(Ordering::SeqCst) {
             self.1.ready_wakers.lock().unwrap().push(cx.waker().clone());
             return std::task::Poll::Pending;
@@ -100,6 +106,7 @@ where
         self.0.poll_ready(cx)
     }
     fn call(&self, req: Req) -> Self::Future {
+        self.3.store(false, Ordering::SeqCst);
         self.0.call(req)
     }
 }
@@ -111,9 +118,10 @@ where
     S::Error: Default,
     Req: 'static,
 {
-    let g = Gated(svc, sh, call);
+    let g = Gated(svc, sh, call, Arc::new(std::sync::atomic::AtomicBool::new(false)));
     actix_service::fn_factory(move || {
-        let g = g.clone();
+        let mut g = g.clone();
+        g.3 = Arc::new(std::sync::atomic::AtomicBool::new(false)); // per instance
         // earlier builder calls take longer to create their service: the services of one worker become ready in the reverse of
         // the order in which they were registered
         // (yields, not timers: outside an actix System the worker threads create their services through `Handle::block_on` on
